@@ -178,7 +178,8 @@ func diffEq(a, b *core.StateDiff) bool {
 //     oldest..b — ChainReader reads nothing above b for these (the real call is still made on the full view).
 //
 // Purity is checked, not assumed: the view's deep hash is recomputed after the reads.
-func (c *checker) functional(v *preconfirmed.ChainReader, entries []*pending.PreConfirmed, p pass, ctx func() any) {
+func (c *checker) functional(v *preconfirmed.ChainReader, entries []*pending.PreConfirmed, p pass, ctx func() any) (pure bool) {
+	pure = true
 	if len(entries) == 0 {
 		return
 	}
@@ -237,7 +238,7 @@ func (c *checker) functional(v *preconfirmed.ChainReader, entries []*pending.Pre
 		}
 		for k, tx := range e.Block.Transactions {
 			s, i, kk, ok := parseTx(tx.Hash())
-			if !ok || s != e.Block.Number || kk != k || idStrings[i] != e.BlockIdentifier {
+			if !ok || s != e.Block.Number || kk != k || idString(s, i) != e.BlockIdentifier {
 				viol("entry-holds-foreign-transaction", map[string]any{"block": e.Block.Number, "tx": tx.Hash().String(), "pos": k})
 				return
 			}
@@ -299,6 +300,8 @@ func (c *checker) functional(v *preconfirmed.ChainReader, entries []*pending.Pre
 	_, s1, _, _ := chain.Sierra(1)
 	probeClasses := []felt.Felt{c0, s1, chain.FV(0xBADC1A55)}
 	for s := lo; s <= hi; s++ {
+		_, xh := extraClass(s)
+		probeClasses = append(probeClasses, xh)
 		absent := false
 		for i := 0; i < 3; i++ {
 			// the rounds present in the view + one round per slot that is not
@@ -408,7 +411,9 @@ func (c *checker) functional(v *preconfirmed.ChainReader, entries []*pending.Pre
 	after := viewDigest(v, pass{})
 	if after != before {
 		viol("view-changed-by-reading-through-it", map[string]any{})
+		return false
 	}
+	return true
 }
 
 func (c *checker) probe(viol func(string, map[string]any), what, tag string, cn *canon, b uint64, idx int, sr core.StateReader, err error,
